@@ -143,20 +143,42 @@ def run_orient(sc, workdir):
         pars[nm + "_pd_n"] = rng.choice([1, 2, 3, 4])        # one point: the jitter is zero, not the view angle
         pars[nm + "_pd_type"] = rng.choice(["gaussian", "rectangle", "uniform"])
         pars[nm + "_pd_nsigma"] = rng.choice([2.0, 3.0])
+    # combined size + angle dispersity: one size parameter with more points than any angle (so that it is the
+    # innermost loop of the kernel), low-weight end points, and a cutoff that removes some mesh points
+    sizes = sorted(p.name for p in P.call_parameters if p.polydisperse and p.type == "volume")
+    szname = ""
+    if sc.get("size") and sizes:
+        szname = rng.choice(sizes)
+        pars[szname + "_pd"] = rng.choice([0.05, 0.1])
+        pars[szname + "_pd_n"] = rng.choice([6, 8])
+        pars[szname + "_pd_type"] = "gaussian"
+        pars[szname + "_pd_nsigma"] = 3.0
+    cutoff = rng.choice([0.0, 1e-5, 1e-3, 1e-2]) if sc.get("cutoff") else 0.0
     qx, qy = np.array(QX), np.array(QY)
     kernel = model.make_kernel([qx, qy])
-    ev = {"tid": sc["tid"], "ev": "Orient", "model": info.id, "sym": sym, "raised": "",
+    ev = {"tid": sc["tid"], "ev": "Orient", "model": info.id, "sym": sym, "raised": "", "cutoff": fstr(cutoff),
           "theta": fstr(theta), "phi": fstr(phi), "psi": fstr(psi), "qx": fvec(qx), "qy": fvec(qy), "pars": pars}
-    I2d = call_kernel(kernel, dict(pars))
+    I2d = call_kernel(kernel, dict(pars), cutoff=cutoff)
     ev["I2d"] = fvec(I2d)
     mono = {k: v for k, v in pars.items() if "_pd" not in k}
-    _, _, _, vshell, _ = call_Fq(kernel, dict(mono, radius_effective_mode=0))
-    ev["V"] = fstr(vshell)
-    # the model's own validity verdict at these (monodisperse) parameters: total weight of the mono call
     nq = kernel.q_input.nq
+    nmodes = len(info.radius_effective_modes or [])
+    # orientation jitter leaves every size as it is: the effective radius and the volumes reported with jitter
+    # (angles only) must be those of the monodisperse particle
+    ermode = rng.randint(1, nmodes) if nmodes else 0
+    angles_only = {k: v for k, v in pars.items() if not k.startswith(szname + "_pd")} if szname else dict(pars)
+    _, _, rj, vj, _ = call_Fq(kernel, dict(angles_only, radius_effective_mode=ermode), cutoff=0.0)
+    _, _, rm, vm, _ = call_Fq(kernel, dict(mono, radius_effective_mode=ermode), cutoff=0.0)
+    ev["ermode"], ev["reffj"], ev["reffm"], ev["vj"], ev["vm"] = ermode, fstr(rj), fstr(rm), fstr(vj), fstr(vm)
+    # the model's own validity verdict at these (monodisperse) parameters: total weight of the mono call
     ev["valid"] = bool(float(kernel.result[nq]) != 0.0)
     mesh = get_mesh(info, dict(pars), dim="2d")
     byname = {p.name: m for p, m in zip(P.call_parameters, mesh)}
+    if szname:
+        _, sd, sw = byname[szname]
+        sd, sw = list(sd), list(sw)
+    else:
+        sd, sw = [None], [1.0]
 
     def jit(nm):
         if nm in byname:
@@ -167,19 +189,33 @@ def run_orient(sc, workdir):
     ev["jt"], dt, _ = jit("theta")
     ev["jp"], dp, _ = jit("phi")
     ev["js"], ds, _ = jit("psi")
-    _, values, _ = make_kernel_args(kernel, [(m[0], [m[0]], [1.0]) for m in mesh])
-    vals = np.ascontiguousarray(values[2:2 + P.npars], dtype="d")
-    pts = []
-    for a in dt:
-        for b in dp:
-            for c in ds:
-                R = Rz(phi) @ Ry(theta) @ Rz(psi) @ Rx(b) @ Ry(a) @ Rz(c)
-                row = []
-                for j in range(len(qx)):
-                    qa, qb, qc = R.T @ np.array([qx[j], qy[j], 0.0])
-                    row.append({"q": fvec([qa, qb, qc]), "F2": fstr(fn(qa, qb, qc, vals.ctypes.data))})
-                pts.append(row)
-    ev["pts"] = pts
+    szV, szvalid, szpts = [], [], []
+    for sval in sd:
+        pairs = [((sval if p.name == szname else m[0]), [(sval if p.name == szname else m[0])], [1.0])
+                 for p, m in zip(P.call_parameters, mesh)]
+        _, values, _ = make_kernel_args(kernel, pairs)
+        vals = np.ascontiguousarray(values[2:2 + P.npars], dtype="d")
+        if szname:
+            _, _, _, vs, _ = call_Fq(kernel, dict(mono, radius_effective_mode=0, **{szname: sval}))
+            szV.append(fstr(vs))
+            szvalid.append(bool(float(kernel.result[nq]) != 0.0))
+        else:
+            szV.append(fstr(vm))
+            szvalid.append(True)
+        pts = []
+        for a in dt:
+            for b in dp:
+                for c in ds:
+                    R = Rz(phi) @ Ry(theta) @ Rz(psi) @ Rx(b) @ Ry(a) @ Rz(c)
+                    row = []
+                    for j in range(len(qx)):
+                        qa, qb, qc = R.T @ np.array([qx[j], qy[j], 0.0])
+                        row.append({"q": fvec([qa, qb, qc]), "F2": fstr(fn(qa, qb, qc, vals.ctypes.data))})
+                    pts.append(row)
+        szpts.append(pts)
+    ev["V"] = fstr(vm)
+    ev["sz"] = {"name": szname, "w": fvec(sw), "V": szV, "valid": szvalid}
+    ev["pts"] = szpts
     kernel.release()
     emit(ev)
 
